@@ -42,8 +42,9 @@ CONSTANTS Universe,   \* "mc" | "clients" | "hosts"
           MaxReq,     \* bound on Request steps in a history
           Emitting    \* TRUE: print one @@V vector per SetAccess
 
-VARIABLES cfg, last, obs, nset, nreq
-vars == <<cfg, last, obs, nset, nreq>>
+VARIABLES cfg, last, obs, nset, nreq,
+          plan   \* enumeration aid only, see Init
+vars == <<cfg, last, obs, nset, nreq, plan>>
 
 \* ------------------------------------------------------------- the universes
 Bit4(i) == << (i \div 8) % 2, (i \div 4) % 2, (i \div 2) % 2, i % 2 >>
@@ -145,11 +146,23 @@ EmitCfg(c) ==
                             disallowed |-> c.disallowed, hosts |-> c.hosts,
                             ex |-> ExTable(c), hv |-> HostTable(c)])>>)
 
+\* plan is not part of the modelled system.  All successors of one state are
+\* computed by a single TLC worker, so enumerating thousands of list pairs
+\* from the single initial state would be sequential.  In the enumeration
+\* universes the initial state therefore already fixes which allowed list the
+\* SetAccess step is going to install (one initial state per allowed list);
+\* the set of reachable configurations is the same.  In the "mc" universe the
+\* aid is off.
+Plans ==
+    IF Universe = "mc" THEN {[on |-> FALSE, a |-> {}]}
+    ELSE {[on |-> TRUE, a |-> p[1]] : p \in ListPairs}
+
 Init == /\ cfg = NoCfg
         /\ last = NoLast
         /\ obs = ZeroObs
         /\ nset = 0
         /\ nreq = 0
+        /\ plan \in Plans
         /\ (Emitting => EmitUniverse)
 
 \* One successful POST /control/access/set.  Nothing is resolved, filtered,
@@ -160,10 +173,11 @@ SetAccess(A, D, H) ==
     \* two requests (histories S R* and S R S R).
     /\ (nset > 0 => (nreq > 0 /\ nreq < MaxReq))
     /\ A \cap D = {}
+    /\ (plan.on => A = plan.a)
     /\ cfg' = [allowed |-> A, disallowed |-> D, hosts |-> H]
     /\ last' = NoLast
     /\ nset' = nset + 1
-    /\ UNCHANGED <<obs, nreq>>
+    /\ UNCHANGED <<obs, nreq, plan>>
     /\ (Emitting => EmitCfg(cfg'))
 
 \* One DNS request r with outcome o.
@@ -174,7 +188,7 @@ Request(r, o) ==
     /\ last' = [out |-> o, req |-> r]
     /\ obs' = [x \in DOMAIN obs |-> obs[x] + Effect(o)]
     /\ nreq' = nreq + 1
-    /\ UNCHANGED <<cfg, nset>>
+    /\ UNCHANGED <<cfg, nset, plan>>
 
 Next == \/ \E p \in ListPairs, H \in HostLists : SetAccess(p[1], p[2], H)
         \/ \E r \in Requests : \E o \in Outcomes(cfg, r) : Request(r, o)
